@@ -45,13 +45,21 @@ class Spec(object):
 
     def cases(self, ctx, budget, rng):
         maxlen, nrand = budget
-        for n in range(0, maxlen + 1):
-            for tup in itertools.product(IDS, repeat=n):
-                # prune: once a prefix is illegal the rest cannot matter beyond one more id
-                k = specdoc.first_illegal(tup)
-                if k is not None and k < n - 1:
-                    continue
-                yield tup
+        # depth-first over legal prefixes; every legal prefix is extended by every id
+        # (continuing after the first illegal id adds nothing)
+        def walk(prefix):
+            yield tuple(prefix)
+            if len(prefix) >= maxlen:
+                return
+            for s in IDS:
+                nxt = prefix + [s]
+                if specdoc.first_illegal(nxt) is None:
+                    for t in walk(nxt):
+                        yield t
+                else:
+                    yield tuple(nxt)
+        for t in walk([]):
+            yield t
         for _ in range(nrand):
             # random walks through the hierarchy with an illegal id spliced in
             ids = ['diffx']
@@ -113,11 +121,11 @@ class Spec(object):
 
 def explore(ctx, escalate=False, hint=None):
     if ctx.run.tier == 'thorough':
-        budget = (10, 100000)
+        budget = (12, 100000)
     elif escalate:
-        budget = (8, 20000)
+        budget = (10, 20000)
     else:
-        budget = (7, 5000)
+        budget = (9, 5000)
     rule = ('every sequence of section ids over 9 legal + 13 well-formed-but-illegal ids up to length %d whose proper '
             'prefix is legal (exhaustive: continuing after the first illegal id adds nothing) + %d random walks of '
             'length <= 31 with a spliced id; each id rendered with a minimal valid body; expected first rejected index '
